@@ -252,6 +252,20 @@ func c07Compare(c *lib.Ctx, input []byte, g1, g2 *lib.Content, preds []lib.RecPr
 		return false
 	}
 	diffs := lib.CompareContent(lib.RelaxContent(&e), lib.RelaxContent(g2), lib.CompareOpts{Skip: skip})
+	if len(resized) > 0 {
+		// What the skip above hides is reported as the listed finding F21, not passed over: a
+		// record whose compressed_speed_distance had fewer (or more) than 3 bytes comes back from
+		// the round trip with speed / distance (/ enhanced_speed) derived from the padded array.
+		strict := func(slot string, g uint16, idx int, si int) bool {
+			return skip(slot, g, idx, si) && !resized[idx]
+		}
+		for _, d := range lib.CompareContent(lib.RelaxContent(&e), lib.RelaxContent(g2), lib.CompareOpts{Skip: strict}) {
+			if d.Global == ref.MesgRecord && d.Slot == "Records" && resized[d.Index] && d.Sindex >= 0 &&
+				(spd != nil && d.Sindex == spd.Sindex || dist != nil && d.Sindex == dist.Sindex || es != nil && d.Sindex == es.Sindex) {
+				c.Known("F21", input, "record %d: compressed_speed_distance had %s bytes in the input; after Encode (padded / cut to 3 bytes) and Decode field #%d is %s instead of %s", d.Index, "other than 3", d.Sindex, d.GotV, d.ExpV)
+			}
+		}
+	}
 	for _, d := range diffs {
 		if d.Sindex >= 0 && d.ExpV.K == 's' && d.GotV.K == 's' {
 			// strings: generation 2 is generation 1 cut to at most length-1 bytes (a cut never splits a rune).
